@@ -511,7 +511,7 @@ def gen_cases(ctx, cs):
             add_grid_cases(cs, rng, shape[0], shape[1], fd, f"exh{shape[0]}x{shape[1]}", "x", True, py_share=0.3,
                            inlet_modes=["all"])
     # 2x2: all 10^4 grids; every outlet; inlet subsets: all 16 for a share of the grids, else empty + one on the chain
-    share22 = 0.12 if th else 0.01
+    share22 = 0.3 if th else 0.01
     for fd in itertools.product(ALPHABET, repeat=4):
         allsub = rng.random() < share22
         add_grid_cases(cs, rng, 2, 2, fd, "exh2x2", "x", allsub, py_share=0.02 if th else 0.004,
@@ -523,11 +523,11 @@ def gen_cases(ctx, cs):
                 add_grid_cases(cs, rng, shape[0], shape[1], fd, f"exh{shape[0]}x{shape[1]}", "x", True, py_share=0.05,
                                inlet_modes=["all"])
         for shape in [(2, 3), (3, 2)]:
-            for _ in range(14000):
+            for _ in range(30000):
                 fd = [rng.choice(ALPHABET) for _ in range(6)]
                 add_grid_cases(cs, rng, shape[0], shape[1], fd, f"smp{shape[0]}x{shape[1]}", "x", False, py_share=0.01)
         red = [1, 4, 8, 64, 128, 0]
-        for _ in range(6000):
+        for _ in range(15000):
             fd = [rng.choice(red) for _ in range(9)]
             add_grid_cases(cs, rng, 3, 3, fd, "smp3x3", "x", False, py_share=0.01)
     # ---- structured
